@@ -9,10 +9,12 @@ import (
 	"fmt"
 	"hash/fnv"
 	"os"
+	"runtime"
 	"sort"
 	"strconv"
 	"strings"
 	"sync"
+	"sync/atomic"
 	"syscall"
 	"time"
 )
@@ -47,7 +49,15 @@ type R struct {
 	maxSamples int
 }
 
+var wdOnce sync.Once
+
 func New(scenario string) *R {
+	r := newR(scenario)
+	wdOnce.Do(func() { StartWatchdog(r, strings.SplitN(scenario, " ", 2)[0], 90*time.Second) })
+	return r
+}
+
+func newR(scenario string) *R {
 	return &R{Scenario: scenario, Counters: map[string]int64{}, distinct: map[uint64]struct{}{},
 		states: map[uint64]struct{}{}, sigSeen: map[string]int{}, start: time.Now(), Exhaustive: true, maxSamples: 5}
 }
@@ -102,7 +112,7 @@ func (r *R) Cap(reason string) {
 func (r *R) Violate(sig, detail string, replay any) {
 	if os.Getenv("VERIF_ONLY_OWNERSHIP") == "1" {
 		// run on behalf of C20: only memory-ownership oracles count here; the functional oracles belong to the owning property
-		if !strings.Contains(sig, ":ownership") && !strings.Contains(sig, ":tainted") && !strings.Contains(sig, ":panic") {
+		if !strings.Contains(sig, ":ownership") && !strings.Contains(sig, ":tainted") && !strings.Contains(sig, ":panic") && !strings.Contains(sig, ":deadlock") {
 			return
 		}
 		if i := strings.IndexByte(sig, ':'); i > 0 {
@@ -273,4 +283,78 @@ func FlushCurrent() {
 	b = append(b, '\n')
 	curFile.Truncate(0)
 	curFile.WriteAt(b, 0)
+}
+
+// ---- watchdog: an implementation deadlock on a mutex blocks synctest.Wait forever --------------------------
+
+var progress atomic.Int64
+
+// Progress is called by the harness whenever the execution under test reached quiescence.
+func Progress() { progress.Add(1) }
+
+// StartWatchdog must be called outside any synctest bubble. If the harness makes no progress for
+// `limit` of wall-clock time it dumps all goroutines; when one of them is blocked on a mutex inside
+// implementation code the hang is reported as a violation of prop (with the current choice list as
+// replay), otherwise the process exits with status 2 (harness problem).
+func StartWatchdog(r *R, prop string, limit time.Duration) {
+	go func() {
+		last, lastT := int64(-1), time.Now()
+		for {
+			time.Sleep(2 * time.Second)
+			p := progress.Load()
+			if p == 0 {
+				lastT = time.Now() // not armed: this process does not run bubble executions (yet)
+				continue
+			}
+			if p != last {
+				last, lastT = p, time.Now()
+				continue
+			}
+			if time.Since(lastT) < limit {
+				continue
+			}
+			buf := make([]byte, 4<<20)
+			buf = buf[:runtime.Stack(buf, true)]
+			culprit := ""
+			for _, g := range strings.Split(string(buf), "\n\n") {
+				if !strings.Contains(g, "sync.(*Mutex).Lock") && !strings.Contains(g, "sync.(*RWMutex).") && !strings.Contains(g, "sync.(*WaitGroup).Wait") && !strings.Contains(g, "sync.(*Cond).Wait") {
+					continue
+				}
+				for _, l := range strings.Split(g, "\n") {
+					if strings.HasPrefix(l, "github.com/IrineSistiana/mosproxy/") && !strings.Contains(l, "zzverif") {
+						fn := l[strings.LastIndex(l, "/")+1:]
+						if i := strings.Index(fn, "("); i > 0 && !strings.HasPrefix(fn, "transport.c") && !strings.HasPrefix(fn, "router.c") {
+							culprit = strings.TrimSpace(fn[:strings.LastIndex(fn, "(")])
+							r.Violate(prop+":deadlock:"+culprit, "the implementation stopped making progress (a goroutine is blocked on a lock and the execution never reaches quiescence):\n"+trimStack(g), currentReplay())
+							break
+						}
+					}
+				}
+				if culprit != "" {
+					break
+				}
+			}
+			r.Cap("watchdog: no progress for " + limit.String())
+			r.Write()
+			if culprit != "" {
+				os.Exit(1)
+			}
+			os.Stderr.Write(buf)
+			os.Exit(2)
+		}
+	}()
+}
+
+func trimStack(g string) string {
+	if len(g) > 2500 {
+		return g[:2500]
+	}
+	return g
+}
+
+func currentReplay() any {
+	if curC == nil {
+		return nil
+	}
+	return map[string]any{"Choices": curC.Choices()}
 }
